@@ -75,11 +75,15 @@ func RunOps(cfg RunCfg, ops []Op) (*World, []string, *Mismatch) {
 		l0 := 0
 		if w.File != nil {
 			l0 = w.File.LogLen()
+			if op.K == "flush" && op.H == 0 {
+				w.PreImage = w.File.Bytes()
+			}
 		}
 		got := w.Do(op)
 		obs = append(obs, got)
 		if w.File != nil && !w.Hang {
 			evs := w.File.LogFrom(l0)
+			w.LastEvents = evs
 			if m := w.IO.checkIO(op, got, evs, op.H == 0); m != nil {
 				m.Step, m.Op = i, op.String()
 				return w, obs, m
